@@ -4,7 +4,8 @@ Called from harness/c02.py's run(). Streams:
  * the hand matcher of `whole_span` (`c01.whole`) against the real `regex` engine with the pattern read from
    spec.md at run time and the real `get_bindings`, on flat ASTs of generated programs and bounded-exhaustively on
    token-level line pools;
- * on every real tree: the hypotheses `treeOk2` and `PreorderMonotone` (driver, on the tweaked tree); when they hold,
+ * on every real tree: the hypotheses `treeOk2` and `lastDescMono` (line of a positioned node <= line of its last positioned
+   strict descendant in dump order) (driver, on the tweaked tree); when they hold,
    every `node:` span and the `whole_span` span computed by the real code must satisfy start <= end, `whole_span`
    must yield exactly one occurrence spanning (first positioned line, last positioned line in dump order).
 """
@@ -93,7 +94,8 @@ def stream(ctx, drv):
         n, m, b = compare("tree:whole_span-matcher-programs", lines, hash(src))
         info = drv.call("c01.tree_span", tree=fe.export(tree))
         ctx.dist("tree: treeOk2 " + ("holds" if info["wf2"] else "FAILS"))
-        ctx.dist("tree: PreorderMonotone " + ("holds" if info["monotone"] else "FAILS"))
+        ctx.dist("tree: lastDescMono (hypothesis of C02_node_span) " + ("holds" if info["monotone"] else "FAILS"))
+        ctx.dist("tree: PreorderMonotone (former, stronger hypothesis) " + ("holds" if info["monotone_preorder"] else "FAILS"))
         has_pos_string = any(isinstance(x, ast.Constant) and isinstance(x.value, (str, bytes)) and "_pos=" in repr(x.value)
                              for x in ast.walk(tree))
         sig = SIG_POSSTR if has_pos_string else None
